@@ -2172,6 +2172,7 @@ def run(ctx):
     _ext.phantom_stream(ctx, cuqi, STATED["phantoms"])
     _ext.grid_stream(ctx, cuqi, B2)
     _ext.setter_histories(ctx, cuqi, B2)
+    _ext.option_stream(ctx, cuqi, B2, STATED["phantoms"])
 
     B1.run(ctx)
     B2.run(ctx)
